@@ -817,4 +817,39 @@ def dftInvDocNd [Add α] [Mul α] [Zero α] [One α] (ns ms : List Nat) (wms : L
 
 end DFTPad
 
+
+/-! ## Abel transform: quadrant assembly (`scico/linop/abel.py: _pyabel_transform`, PyAbel `get/put_image_quadrants`) -/
+
+section Abel
+variable {α : Type} [Add α] [Mul α] [Zero α]
+
+/-- `transform_quad(Q) = Q.dot(P)` for the quadrant extracted by `get_image_quadrants` (all oriented as the upper right
+    one: `fliplr` for the left, `flipud` for the lower quadrants), at quadrant position `(r, j)`; the image is `n × m`
+    row-major, `mc = ⌈m/2⌉`, `quad = 0,1,2,3` as in PyAbel (0 upper right, 1 upper left, 2 lower left, 3 lower right) -/
+def abelQuad (P : M α) (n m mc : Nat) (x : V α) (quad r j : Nat) : α :=
+  sumTo mc (fun i =>
+    (match quad with
+      | 0 => x (r * m + (m - mc + i))
+      | 1 => x (r * m + (mc - 1 - i))
+      | 2 => x ((n - 1 - r) * m + (mc - 1 - i))
+      | _ => x ((n - 1 - r) * m + (m - mc + i))) * P i j)
+
+/-- `put_image_quadrants`: odd sizes trim the duplicated centre row (from the upper quadrants) and centre column (from
+    the left quadrants); `Top = [fliplr(Q1), Q0]`, `Bottom = flipud([fliplr(Q2), Q3])`; `nc = ⌈n/2⌉` -/
+def abelEval (P : M α) (n m nc mc : Nat) (x : V α) : V α := fun p =>
+  let r := p / m
+  let c := p % m
+  if r < n - nc then
+    (if c < m - mc then abelQuad P n m mc x 1 r (mc - 1 - c) else abelQuad P n m mc x 0 r (c - (m - mc)))
+  else
+    (if c < m - mc then abelQuad P n m mc x 2 (n - 1 - r) (mc - 1 - c) else abelQuad P n m mc x 3 (n - 1 - r) (c - (m - mc)))
+
+/-- documented structure: every image row is transformed on its own by the `m × m` matrix that applies the radial
+    (single-quadrant) matrix `P` to the right half and, mirrored, to the left half of the row -/
+def abelRowMatrix (P : M α) (m mc : Nat) : M α := fun c c' =>
+  if c < m - mc then (if c' < mc then P (mc - 1 - c') (mc - 1 - c) else 0)
+  else (if m - mc ≤ c' then P (c' - (m - mc)) (c - (m - mc)) else 0)
+
+end Abel
+
 end Scico.LinOps
